@@ -1699,6 +1699,16 @@ def rule_narrowing(chk):
                     RET_TYPES.setdefault(f_.name, f_.cy_rettype.replace('()', '').strip())
         except Exception:
             pass
+    ATTR_KEYW = {}
+    for rel in rels:
+        pxd = rel[:-4] + '.pxd'
+        if os.path.exists(os.path.join(REPO, pxd)):
+            for c_ in M.classes(M.cy(pxd)):
+                for st_ in c_.body:
+                    if isinstance(st_, ast.AnnAssign) and isinstance(st_.target, ast.Name) and isinstance(st_.annotation, ast.Constant) and isinstance(st_.annotation.value, str):
+                        m_ = re.match(r'^(?:map|unordered_map)\[([^,\]]+),', st_.annotation.value)
+                        if m_ and WIDTH.get(ctype(m_.group(1))) is not None:
+                            ATTR_KEYW.setdefault(rel, {})[st_.target.id] = (WIDTH[ctype(m_.group(1))], st_.annotation.value)
     for rel in rels:
         t = M.cy(rel)
         for fn in [f for f in ast.walk(t) if isinstance(f, ast.FunctionDef)]:
@@ -1712,10 +1722,20 @@ def rule_narrowing(chk):
                     m = re.match(r'^(?:map|unordered_map|pair)\[([^,\]]+),', ty)
                     if m and WIDTH.get(ctype(m.group(1))) is not None:
                         keyw[a.target.id] = (WIDTH[ctype(m.group(1))], ty)
-            if not keyw:
+            # containers that are attributes of the class (declared in the .pxd): looked up as self.<attr>.find(key) / self.<attr>[key]
+            akeyw = ATTR_KEYW.get(rel, {})
+            if not keyw and not akeyw:
                 continue
             for a in ast.walk(fn):
                 uses = []
+                if akeyw:
+                    if isinstance(a, ast.Call) and isinstance(a.func, ast.Attribute) and a.func.attr in ('find', 'count', 'erase') and isinstance(a.func.value, ast.Attribute) \
+                            and compact(a.func.value.value) == 'self' and a.func.value.attr in akeyw and a.args and isinstance(a.args[0], ast.Name):
+                        keyw.setdefault('self.' + a.func.value.attr, akeyw[a.func.value.attr])
+                        uses.append(('self.' + a.func.value.attr, a.args[0].id, a))
+                    if isinstance(a, ast.Subscript) and isinstance(a.value, ast.Attribute) and compact(a.value.value) == 'self' and a.value.attr in akeyw and isinstance(a.slice, ast.Name):
+                        keyw.setdefault('self.' + a.value.attr, akeyw[a.value.attr])
+                        uses.append(('self.' + a.value.attr, a.slice.id, a))
                 if isinstance(a, ast.Assign) and isinstance(a.targets[0], ast.Attribute) and a.targets[0].attr == 'first' and isinstance(a.targets[0].value, ast.Name) \
                         and a.targets[0].value.id in keyw and isinstance(a.value, ast.Name):
                     uses.append((a.targets[0].value.id, a.value.id, a))
@@ -1741,6 +1761,36 @@ def rule_narrowing(chk):
                                detail_bad='`%s` is declared `%s` (%d bits) but is the key of `%s` (%s, %d-bit keys): ids beyond 2**31 are truncated here and alias other cells, while binning and the '
                                           'stencil look-up use the full id' % (var, vty, vw, cont, kty, kw_), detail_ok='%s %s keys %s' % (vty, var, kty))
     chk.floor('keys of 64-bit-keyed containers', n, 1)
+
+
+def rule_query_array_index(chk):
+    """helpers that encode / decode per-array layouts (the key of a cell, the particle id inside a key: the bit widths differ from array to array) take the index of the array
+    they are to work for; in a query everything that is looked up belongs to the *source* array, so inside find_nearest_neighbors that argument is the source index (through
+    locals).  With the destination's index the look-up key has the wrong field widths whenever the two arrays differ in size: no cell is found, neighbours are lost."""
+    n = 0
+    for p_ in sorted(glob.glob(os.path.join(REPO, 'pysph/base/*_nnps.pyx'))):
+        if 'gpu' in p_:
+            continue
+        rel = os.path.relpath(p_, REPO)
+        for cls in M.classes(M.cy(rel)):
+            meths = M.methods(cls)
+            fn = meths.get('find_nearest_neighbors')
+            if fn is None:
+                continue
+            withidx = dict((m_, [a.arg for a in f_.args.args].index('pa_index') - 1) for m_, f_ in meths.items() if 'pa_index' in [a.arg for a in f_.args.args])
+            if not withidx:
+                continue
+            defs = N.local_defs(fn.body)
+            for c in M.calls(fn):
+                if isinstance(c.func, ast.Attribute) and compact(c.func.value) == 'self' and c.func.attr in withidx and len(c.args) > withidx[c.func.attr]:
+                    arg = compact(N.inline(c.args[withidx[c.func.attr]], defs))
+                    n += 1
+                    chk.decide(arg == 'self.src_index', 'context-wiring', '%s.find_nearest_neighbors:%s(pa_index=%s)@%d' % (cls.name, c.func.attr, arg, n), node=c, file=rel,
+                               func='%s.find_nearest_neighbors' % cls.name,
+                               detail_bad='%s is asked to work with the layout of array `%s`; everything a query looks up is the source array\'s (self.src_index): with two arrays whose '
+                                          'particle counts need different numbers of id bits the key built here matches no cell of the source table (or the wrong one)' % (c.func.attr, arg),
+                               detail_ok='layout of the source array')
+    chk.floor('per-array layout helpers used in queries', n, 2)
 
 
 def rule_coindexed(chk):
@@ -2127,6 +2177,7 @@ def main(chk):
     rule_valid_cell(chk)
     rule_level_cell_size(chk)
     rule_narrowing(chk)
+    rule_query_array_index(chk)
     rule_cxx_headers(chk)
     # only valid indices, no duplicates: a sort of the result must touch exactly the slice this query appended (rule shared with C05)
     import importlib.util
